@@ -1438,6 +1438,9 @@ callf:
 			top := env.Runtime.Stack.Top()
 			top.HeightLogical += r.tailRecElided()
 			top.TailIterations++
+			// The frame is reused for the next call, which starts out in
+			// non-terminal position; see the matching reset in funCall.
+			top.Terminal = false
 			err := env.Runtime.Stack.CheckTailCall()
 			if err != nil {
 				return env.Error(err)
@@ -1582,6 +1585,12 @@ callf:
 			top := env.Runtime.Stack.Top()
 			top.HeightLogical += r.tailRecElided()
 			top.TailIterations++
+			// The frame is reused for the next call, which starts out in
+			// non-terminal position.  Leaving the previous iteration's
+			// Terminal flag set lets a call made from a non-final body
+			// form be mistaken for a tail call of this frame; its mark is
+			// then discarded by call() and the call never runs.
+			top.Terminal = false
 			err := env.Runtime.Stack.CheckTailCall()
 			if err != nil {
 				return env.Error(err)
